@@ -13,6 +13,12 @@ CLAIMED = {
  "C02": ("7/C02", "CFG edge-cut guard entailment + backward 'return true only if' reachability + operator-table normalisation + loop append-once rule over go/ssa",
          "Structural necessary conditions only: branch/list/flag agreement on both transaction paths and the table layer, predicates before operations on the same view, failed-predicate edges reach only 'return false', operator table with the stored value on the left, one response per operation arm, one snapshot on the read-only path, read-only classification and its two consumers. Evaluation results and Pebble isolation are not decided.",
          "go/types+go/ssa; bytes.Compare in {-1,0,1}; C01 obligations hold inside a transaction"),
+ "C03": ("7/C03", "forward taint (effects) from nondeterministic sources to replicated sinks over the module call graph + carry-field presence-guard rule (edge cut) + provenance of result revisions + snapshot saver loop rules",
+         "Structural necessary conditions only: no clock/random/environment/per-replica value or ordering construct reaches batch writes or results; per-entry context fields persisted once per batch are total or presence-guarded; results carry the entry's own index; indexed switch applies the old batch; both snapshot savers carry all keys (flush before checkpoint). Equality of replica contents is not decided.",
+         "go/types+go/ssa; blacklist of nondeterministic sources (DESIGN section 4 E6); metrics/logging are not replicated state"),
+ "C10": ("7/C10", "value provenance of the revision across state machine, table layer and servers + CFG edge-cut on the linearizable flag + call-site table of the read helper",
+         "Structural necessary conditions only: revision provenance Entry.Index -> CommandResult -> Result.Data -> response header (every command kind but the no-op reports its result; nobody else writes the header revision; the forwarding server returns the leader's message) and read-path selection (SyncRead exactly under linearizable, flag sources per call site). Linearizability of dragonboat reads is assumed, not decided.",
+         "go/types+go/ssa; dragonboat index assignment and ReadIndex semantics"),
 }
 PENDING_REASON = "rules designed (DESIGN.md section 7), check not built yet"
 checks=[]; na=[]
